@@ -5,6 +5,7 @@ import os
 
 V = os.path.dirname(os.path.dirname(os.path.abspath(__file__)))
 rows = []
+notes = json.load(open(os.path.join(V, 'seeded', 'notes.json'))) if os.path.exists(os.path.join(V, 'seeded', 'notes.json')) else {}
 for d in sorted(glob.glob(os.path.join(V, 'seeded', '*'))):
     mp = os.path.join(d, 'meta.json')
     if not os.path.isfile(mp):
@@ -16,7 +17,7 @@ for d in sorted(glob.glob(os.path.join(V, 'seeded', '*'))):
     broken = sorted(k for k, c in ver.get('checks', {}).items() if c.get('exit') not in (0, 1))
     rows.append((os.path.basename(d), m.get('property', ''), m.get('summary', '')[:160].replace('\n', ' ').replace('|', '/'),
                  m.get('needs', '')[:160].replace('\n', ' ').replace('|', '/'), ver.get('confirmed'), caught, missed, broken,
-                 m.get('strengthening', ''), ver.get('baseline_tests_broken')))
+                 notes.get(os.path.basename(d), m.get('strengthening', '')), ver.get('baseline_tests_broken')))
 with open(os.path.join(V, 'seeded', 'INDEX.md'), 'w') as f:
     f.write('# Seeded changes\n\nEach directory holds `patch.diff`, `demo.py` (exit 0 without / 1 with the change) and `meta.json` '
             '(what it breaks, what it needs to manifest, what was run). Produced by independent sub-agents that saw only the property text; '
